@@ -981,6 +981,40 @@ func (c *Ctx) opClasses(ph channel.Phase, staging, current channel.Transaction) 
 }
 
 // Exhaustive: every abstract state (phase x staging shape x current shape) x every op class, one step.
+// acting offers every candidate successor (one violation each, and the valid ones) to Update and
+// CheckUpdate of a machine restored in the Acting phase with a fully signed current state: one step
+// per candidate, for the given app kind and participant count.
+func (r *runner) acting(n, me int, kind string, perFile int) (transitions int) {
+	c := NewCtx(r.g, n, me, kind)
+	var cases []string
+	flush := func() {
+		r.w.write(c, cases)
+		cases = nil
+		c.sts, c.stIdx = nil, map[string]int{}
+		c.sigs = map[string]string{}
+	}
+	for _, final := range []bool{false, true} {
+		cur0 := c.signedTx(c.Base(3, final), 1<<uint(n)-1)
+		peer := (me + 1) % n
+		var ops []Op
+		for _, cd := range c.Candidates(cur0.State) {
+			ops = append(ops, Op{Kind: "Update", S: cd.s, Actor: cd.actor, Class: cd.name})
+			ops = append(ops, Op{Kind: "CheckUpdate", S: cd.s, Actor: cd.actor, Sig: c.Sign(peer, cd.s), Idx: peer, Class: cd.name + "/valid-sig"})
+		}
+		for _, o := range ops {
+			transitions++
+			m := c.restore(channel.Acting, channel.Transaction{}, cur0.Clone())
+			init := snap(m)
+			cases = append(cases, r.execCase(c, m, init, []Op{o}, fmt.Sprintf("T2a/n%d/me%d/%s", n, me, kind), false))
+			if len(cases) >= perFile {
+				flush()
+			}
+		}
+	}
+	flush()
+	return
+}
+
 func (r *runner) exhaustive(n, me int, kind string, perFile int) (states, transitions int) {
 	phases := []channel.Phase{channel.InitActing, channel.InitSigning, channel.Funding, channel.Acting, channel.Signing, channel.Final,
 		channel.Registering, channel.Registered, channel.Progressing, channel.Progressed, channel.Withdrawing, channel.Withdrawn}
@@ -1218,8 +1252,17 @@ func Run(prop string) func(seed int64, tier, out string) {
 			}
 			r.sequences(1200, 300, 25)
 		case tier == "quick":
+			for _, kind := range []string{"none", "pay", "mock"} {
+				r.acting(2, r.g.R.Intn(2), kind, perFile)
+				r.acting(3, r.g.R.Intn(3), kind, perFile)
+			}
 			r.sequences(400, 60, 25)
 		default:
+			for _, kind := range []string{"none", "pay", "mock"} {
+				for n := 2; n <= 4; n++ {
+					r.acting(n, r.g.R.Intn(n), kind, perFile)
+				}
+			}
 			s, t := r.exhaustive(2, 1, "pay", perFile)
 			states, transitions = s, t
 			r.sequences(1500, 300, 25)
